@@ -1327,6 +1327,25 @@ func (ds *decState) loop(node ast.Stmt, body *ast.BlockStmt, rangeX, rangeKey, r
 				lc.fail(st, "the cursor is advanced under a condition inside a loop")
 				return
 			}
+			// a way round the read: continue/break/return/goto under a condition, or a condition on the element
+			skips := false
+			ast.Inspect(st, func(n ast.Node) bool {
+				switch n.(type) {
+				case *ast.BranchStmt, *ast.ReturnStmt:
+					skips = true
+				}
+				return !skips
+			})
+			if rangeVal != nil && lc.obj(rangeVal) != nil && lc.mentions(st, lc.obj(rangeVal)) {
+				skips = true
+			}
+			if rangeKey != nil && lc.obj(rangeKey) != nil && lc.mentions(st, lc.obj(rangeKey)) {
+				skips = true
+			}
+			if skips {
+				lc.fail(st, "an element of the loop can be skipped or altered under a condition")
+				return
+			}
 		}
 	}
 	m, args, _ := ds.cursorCall(reads[0])
